@@ -12,6 +12,9 @@ from common import Run, corpus
 
 CELL = [(40 * G, 0, 0), (5 * G, 41 * G, 0), (-3 * G, 7 * G, 42 * G)]
 OCELL = [(40 * G, 0, 0), (0, 41 * G, 0), (0, 0, 42 * G)]
+# LAMMPS-oriented cells with one or two zero tilt factors
+MCELLS = [[(40 * G, 0, 0), (0, 41 * G, 0), (0, -6 * G, 42 * G)], [(40 * G, 0, 0), (7 * G, 41 * G, 0), (0, 0, 42 * G)],
+          [(40 * G, 0, 0), (0, 41 * G, 0), (-5 * G, 0, 42 * G)], [(40 * G, 0, 0), (4 * G, 41 * G, 0), (0, 9 * G, 42 * G)]]
 
 
 def tagged(rng, n, tag, coeffs, cell=None, rich=False, max_terms=3):
@@ -154,6 +157,8 @@ def lmpdat_check(st):
         bad.append("positions differ after reading back")
     if [str(x) for x in B.atom_type_labels] != st["t_lab"]:
         bad.append("labels differ after reading back")
+    if st.get("cell") is not None and (B.cell is None or not np.allclose(np.array(B.cell, float), np.array(st["cell"], float) / G, atol=2e-6)):
+        bad.append("cell %s read back as %s" % ((np.array(st["cell"], float) / G).tolist(), None if B.cell is None else np.array(B.cell).tolist()))
     from mofun.atomic_masses import ATOMIC_MASSES
     if all(e in ATOMIC_MASSES and abs(ATOMIC_MASSES[e] - m / QS) < 2e-3 for e, m in zip(st["t_el"], st["t_mass"])):
         close = [e for e in st["t_el"] if sum(1 for x in ATOMIC_MASSES.values() if abs(x - ATOMIC_MASSES[e]) < 0.11) > 1]
@@ -241,7 +246,7 @@ def gen_histories0(run):
     # (b) sequences that empty a kind and then add to it
     for coeffs in (True, False):
         for _ in range(10 if run.tier == "quick" else 60):
-            base = tagged(rng, rng.randint(2, 5), "s", coeffs, cell=CELL, rich=True)
+            base = tagged(rng, rng.randint(2, 5), "s", coeffs, cell=rng.choice([CELL] + MCELLS), rich=True)
             frag = tagged(rng, rng.randint(2, 4), "f", coeffs, rich=True)
             touched = sorted(set(v for k, *_ in KINDS for t in base[k]["tup"] for v in t))
             if len(touched) < len(base["pos"]) or len(base["pos"]) > 1:
@@ -294,7 +299,7 @@ def gen_histories0(run):
         coeffs = h % 3 != 2
         n = rng.randint(1, 8)
         cur_n = n
-        base = tagged(rng, n, "s", coeffs, cell=CELL if h % 2 else OCELL)
+        base = tagged(rng, n, "s", coeffs, cell=[CELL, OCELL, MCELLS[(h // 2) % 4]][h % 3])
         ops = []
         for step in range(rng.randint(2, 8)):
             kind = rng.choice(["extend", "extendmap", "twice", "del", "del", "replicate", "pop", "copy"])
